@@ -950,6 +950,12 @@ def run_GR(unit, tier, rec):
 EDIT_CHARSETS = ('xy', 'xyz', 'xyx')       # 'xyx': a repeated letter handed to the edit operations
 EDIT_SEQUENCES = ('split', 'triangulate', 'triangulate-then-split', 'refine')
 EDIT_GRIDS = ((2, 2), (3, 2), (3, 3), (6, 4), (7, 6))
+ED_MAX_COLUMNS = 400            # an edit sequence is abandoned (nothing claimed) when the geometry outgrows this
+ED_REREAD_MAX_COLUMNS = 200     # write / read round trips only while the geometry is small
+ED_CALL_LIMIT = 5               # seconds for one edit operation (they take milliseconds)
+ED_STOP_AFTER_VIOLATION = 20    # seconds of further exploration in a unit once it has recorded a violation: a STOP of
+                                # exploration on an already failing tree, never a verdict
+ED_STOP_TIMEOUTS = 3            # operations that did not terminate, after which the unit stops exploring
 
 
 def free_names(dct, chars, L, spaces):
@@ -1007,7 +1013,11 @@ def rename_prime(m, geo, prime, chars_arg, spaces, CL, LL, add):
         else:
             if what == 'column':
                 try:
-                    fresh = geo.new_column_name(justfn=str.rjust, chars=chars_arg, spaces=spaces)[0]
+                    with core.timelimit(ED_CALL_LIMIT):
+                        fresh = geo.new_column_name(justfn=str.rjust, chars=chars_arg, spaces=spaces)[0]
+                except core.CaseTimeout:
+                    add('new_column_name', 'does-not-terminate', 'below-capacity', 0, 'no unused column name within %d s' % ED_CALL_LIMIT)
+                    return False
                 except Exception:
                     continue
             else:
@@ -1022,7 +1032,7 @@ def rename_prime(m, geo, prime, chars_arg, spaces, CL, LL, add):
         count0 = len(names)
         try:
             with quiet():
-                with core.timelimit(CALL_LIMIT * 3):
+                with core.timelimit(ED_CALL_LIMIT):
                     res = fn(old, new)
         except core.CaseTimeout:
             add(op, 'does-not-terminate', 'below-capacity', 0, '%s(%r, %r) gave no result' % (op, old, new))
@@ -1132,7 +1142,9 @@ def edit_sequence(conv, cs, seq, spaces, atm, grid, prime='none', justify='r'):
     cap = N.letter_capacity(len(chars), CL, spaces if seq != 'split' else True)
     steps = 0
     phase = 'triangulate' if seq.startswith('triangulate') else seq
-    for it in range(2 * cap + 8):          # every operation uses up at least one name: the bound cannot be reached
+    for it in range(cap + 8):              # every operation uses up at least one name: the bound cannot be reached
+        if len(geo.columnlist) > ED_MAX_COLUMNS or len(geo.nodelist) > 2 * ED_MAX_COLUMNS:
+            break                              # size bound: nothing is claimed beyond it
         quads = [c for c in geo.columnlist if c.num_nodes == 4]
         sp_eff = True if phase == 'split' else spaces          # split_column has no 'spaces' option
         fc = free_names(geo.column, chars, CL, sp_eff)
@@ -1164,7 +1176,7 @@ def edit_sequence(conv, cs, seq, spaces, atm, grid, prime='none', justify='r'):
         steps += 1
         try:
             with quiet():
-                with core.timelimit(CALL_LIMIT * 3):
+                with core.timelimit(ED_CALL_LIMIT):
                     res = call()
         except m.NamingConventionError:
             if must_succeed:
@@ -1174,7 +1186,7 @@ def edit_sequence(conv, cs, seq, spaces, atm, grid, prime='none', justify='r'):
                 reached.add(op)
             break                              # the geometry may be half edited: error states are not expanded
         except core.CaseTimeout:
-            add(op, 'does-not-terminate', rel, steps, 'no result within %d s (%d column, %d node names free)' % (CALL_LIMIT * 3, fc, fn))
+            add(op, 'does-not-terminate', rel, steps, 'no result within %d s (%d column, %d node names free)' % (ED_CALL_LIMIT, fc, fn))
             break
         except Exception as e:
             add(op, 'raises-%s' % type(e).__name__, rel, steps, 'raised %r (%d column, %d node names free)' % (e, fc, fn))
@@ -1188,7 +1200,7 @@ def edit_sequence(conv, cs, seq, spaces, atm, grid, prime='none', justify='r'):
             add(op, 'edit-refused', rel, steps, 'returned %r for a quadrilateral column and one of its nodes with %d names free' % (res, fc))
             break
         post = edit_postconditions(geo, CL, area0, want_cols, want_nodes)
-        if not post and (steps <= 3 or steps % 5 == 0):
+        if not post and (steps <= 3 or steps % 5 == 0) and len(geo.columnlist) <= ED_REREAD_MAX_COLUMNS:
             post = edit_file_cycle(m, geo)
         for c, w in post:
             add(op, c, rel, steps, w)
@@ -1200,13 +1212,21 @@ def edit_sequence(conv, cs, seq, spaces, atm, grid, prime='none', justify='r'):
 
 
 def run_ED(unit, tier, rec):
+    import time
     _, conv, cs, seq = unit
+    first_violation_at = None
+    timeouts = 0
+    stopped = False
     # without blanks a repeated letter makes 'which name belongs to the number 0' ambiguous for the operations that
     # take the alphabet as it is: the repeated-letter alphabet is run with blanks allowed only
     for spaces in ((True,) if (seq == 'split' or len(set(cs)) != len(cs)) else (True, False)):
         for atm in (0, 1, 2):
             for grid in EDIT_GRIDS:
                 for prime, justify in [(p_, 'r') for p_ in RENAME_PRIMES] + [('none', 'l'), ('rename-digit-ended', 'l')]:
+                    if first_violation_at is not None and (time.time() - first_violation_at > ED_STOP_AFTER_VIOLATION
+                                                           or timeouts >= ED_STOP_TIMEOUTS):
+                        stopped = True
+                        break
                     with core.timelimit(300):
                         viol, steps, reached = edit_sequence(conv, cs, seq, spaces, atm, grid, prime, justify)
                     rec.case(('ED', conv, cs, seq, spaces, atm, grid, prime, justify), nontrivial=steps > 0,
@@ -1220,6 +1240,13 @@ def run_ED(unit, tier, rec):
                         rec.violation(sig, what, {'kind': 'edit-sequence', 'conv': conv, 'chars': cs, 'seq': seq, 'spaces': spaces,
                                                   'atmos': atm, 'grid': list(grid), 'step': st, 'prime': prime,
                                                   'justify': justify})
+                        if first_violation_at is None:
+                            first_violation_at = time.time()
+                        if 'does-not-terminate' in sig:
+                            timeouts += 1
+    if stopped:
+        rec.count('ED_units_that_stopped_exploring_after_violations', 1)
+        rec.notes.append('ED unit %r stopped exploring further sequences after recording violations' % (unit,))
 
 
 def run_C(unit, tier, rec):
